@@ -441,6 +441,17 @@ def check_multi(case):
     except Exception as ex:  # noqa
         if sa == sb or type(ex).__name__ != 'InvalidRangeError':
             bad('add', 'raised', '%s: %s' % (type(ex).__name__, ex))
+    # ... also when only a LATER area of a multi-area operand lies on the other sheet (added after seed c06-a-r6)
+    if sa != sb:
+        mixed = lambda: build(case['a'], sa, values=False) | build(case['b'][:1], sb, values=False)
+        for what, mk3_ in (('left-mixed', lambda: mixed() + build(case['a'][:1], sa, values=False)),
+                         ('right-mixed', lambda: build(case['a'][:1], sa, values=False) + mixed())):
+            try:
+                S3 = mk3_()
+                bad('add', 'xsheet-accepted:' + what, 'areas %s' % area_names(S3))
+            except Exception as ex:  # noqa
+                if type(ex).__name__ != 'InvalidRangeError':
+                    bad('add', 'raised:' + what, '%s: %s' % (type(ex).__name__, ex))
     # an operator result is an operand like any other: (a : b) - a, (a : b) & b, (a b) - ... on one sheet
     if sa == sb:
         try:
